@@ -48,15 +48,28 @@ FUNCS = [
     ('LEFT({X},{Y})', 2), ('UPPER({X})', 1), ('LEN({X})', 1),
     ('MID({X},1,{Y})', 2), ('RIGHT({X},{Y})', 2), ('SQRT({X})', 1),
     ('ROUNDUP({X},{Y})', 2), ('TRUNC({X})', 1), ('EXACT({X},{Y})', 2),
+    ('IF({X}>1,{Y},{X})', 2), ('IF({X},{Y},"no")', 2),
+    ('IFERROR({X},{Y})', 2), ('IFERROR({X}/{Y},{X})', 2),
+    ('IFNA({X},{Y})', 2), ('IFS({X}>2,{Y},TRUE,{X})', 2),
+    ('CEILING({X},{Y})', 2), ('FLOOR({X},{Y})', 2), ('LOG({X},{Y})', 2),
+    ('SUBSTITUTE({X},"a",{Y})', 2), ('REPLACE({X},1,{Y},"z")', 2),
+    ('FIND({Y},{X})', 2), ('LOWER({X})', 1), ('TRIM({X})', 1),
+    ('ATAN2({X},{Y})', 2), ('BITAND({X},{Y})', 2), ('EVEN({X})', 1),
+    ('TEXT({X},"0.0")', 1), ('TRUNC({X},{Y})', 2), ('CHOOSE({X},7,9)', 1),
+    ('YEARFRAC({X},{Y})', 2),
 ]
-KINDS = ['same', 'scalar', 'row', 'col']
+KINDS = ['same', 'scalar', 'row', 'col', 'first-scalar']
 VALUES = [0, 1, 2, 3, -1, 2.5, 10, -4, 7, 0.5, 'a', 'Bc', '12', '#DIV/0!',
           '#N/A', 100, 4, 9]
 
 
 def shape_of_second(kind, h, w):
     return {'same': (h, w), 'scalar': (1, 1), 'row': (1, w),
-            'col': (h, 1)}[kind]
+            'col': (h, 1), 'first-scalar': (h, w)}[kind]
+
+
+def shape_of_first(kind, h, w):
+    return (1, 1) if kind == 'first-scalar' else (h, w)
 
 
 def rng(cols, h, w):
@@ -84,13 +97,14 @@ def normalise(result, th, tw):
 def check_case(rec, senv, template, kind, h, w, th, tw, vals, form='op'):
     """template uses {X} and {Y}"""
     h2, w2 = shape_of_second(kind, h, w)
+    h, w = shape_of_first(kind, h, w)
     xs = fill(COLS, h, w, vals, 0)
     ys = fill(COLS2, h2, w2, vals, 5)
     X, Y = rng(COLS, h, w), rng(COLS2, h2, w2)
     formula = '=' + template.format(X=X, Y=Y)
     target = rng(TCOLS, th, tw) if (th, tw) != (1, 1) else None
-    case = dict(kind=kind, template=template, h=h, w=w, th=th, tw=tw,
-                vals=list(vals), form=form)
+    case = dict(kind=kind, template=template, h=max(h, h2), w=max(w, w2),
+                th=th, tw=tw, vals=list(vals), form=form)
     uses_y = '{Y}' in template
     rh, rw = (h, w)
     if uses_y:
@@ -104,6 +118,10 @@ def check_case(rec, senv, template, kind, h, w, th, tw, vals, form='op'):
                                  'grow')),
              sample=dict(formula=formula, target=target or 'K1', **case))
     tag = f'{form}:{kind if uses_y else "unary"}'
+    if form == 'func':
+        tag = f'func:{template.split("(")[0]}:{kind if uses_y else "unary"}'
+    if (th, tw) == (1, 1):
+        tag += ':target1x1'
     has_scalar_error = uses_y and kind == 'scalar' and \
         klass(ys[f'{COLS2[0]}1']) == 'error'
     if has_scalar_error:
@@ -204,6 +222,8 @@ def shards(tier, seed):
         out.append(dict(kind='hyp', seed=seed * 1000 + k,
                         n=250 if tier == 'quick' else 6000))
     out.append(dict(kind='scalar-error'))
+    for k in range(4):
+        out.append(dict(kind='func-grid', part=k, parts=4))
     return out
 
 
@@ -219,6 +239,22 @@ def run_shard(shard, rec):
         rec.exhaustive.append(
             f'operator {shard["op"]}: all operand x broadcast x target '
             f'shapes <= 4x4 (part {shard["part"]})')
+    elif kind == 'func-grid':
+        # every lifted function x which argument is the array x shapes where
+        # the result is smaller than, equal to and larger than the target
+        grid = list(itertools.product(
+            FUNCS, ['same', 'scalar', 'first-scalar'],
+            [(1, 2, 1, 3), (2, 2, 3, 3), (2, 1, 3, 1), (2, 2, 2, 2),
+             (1, 3, 1, 1), (3, 2, 2, 4)],
+            [[1, 2, 3, 4, 5, 6, 7, 8, 9, 10, 11],
+             [2, 'ab', 0, '#N/A', 3, 1, 'a', 2.5, '#DIV/0!', 4, 1]]))
+        for (template, nargs), k2, (h, w, th, tw), vals in \
+                grid[shard['part']::shard['parts']]:
+            if nargs == 1 and k2 != 'same':
+                continue
+            check_case(rec, senv, template, k2, h, w, th, tw, vals, 'func')
+        rec.exhaustive.append('lifted-function grid part '
+                              f'{shard["part"]}')
     elif kind == 'scalar-error':
         for op in ('+', '&', '='):
             for (h, w), (th, tw) in itertools.product(
@@ -245,6 +281,8 @@ def run_shard(shard, rec):
             (template, form), k2, (h, w), (th, tw), vals = case
             if form == 'func' and k2 in ('row', 'col'):
                 k2 = 'same'
+            if '{Y}' not in template and k2 == 'first-scalar':
+                k2 = 'same'
             before = dict(rec.fail_counts)
             check_case(rec, senv, template, k2, h, w, th, tw, vals, form)
             for k, v in rec.fail_counts.items():
@@ -259,6 +297,8 @@ def replay(case, rec):
     if isinstance(case, list):
         (template, form), k2, (h, w), (th, tw), vals = case
         if form == 'func' and k2 in ('row', 'col'):
+            k2 = 'same'
+        if '{Y}' not in template and k2 == 'first-scalar':
             k2 = 'same'
     else:
         template, form, k2 = case['template'], case.get('form', 'op'), \
